@@ -582,6 +582,9 @@ def run(ctx):
         ctx.broken("correspondence", "model C06.Run.model and ParseOrResolveBlocklisted disagree on %d case(s); first: %r"
                    % (len(mm), terms[mm[0]][1]["s_text"]), terms[mm[0]][1])
 
+    ml = ctx.coq_mismatches("lk", HEADER, [t for t, _ in terms], "chk_lookup", shard=2500)
+    ctx.cov["lookup_flag_mismatches"] = None if ml is None else len(ml)   # statistics flag: informational only
+
     # ---- the Go library functions the model re-states concretely
     std = gen_std(ctx, cases)
     rc, out, sres = ctx.go_inpkg(".", PKG, DRV, "^TestVerifC06Std$", std, timeout=600)
